@@ -24,10 +24,10 @@ import tempfile
 from harness.common import ddmin
 
 REGEN = ["Lookup"]
-RULE = ("histories over ops {t<n> tick, w<d>.<u>.<c> write, d<d>.<u> delete, b<d>.<u> break, g<u> get_template, "
+RULE = ("histories over ops {t<n> tick, w<d>.<u>.<c> write, d<d>.<u> delete, b<d>.<u> break, l<d>.<u>.<v> break late (module raises at import, 3 variants), g<u> get_template, "
         "h<u> has_template, s<u>.<c> put_string, p<u>.<tid> put_template}; exhaustive: every history of length < L "
-        "over a 12-op alphabet on 2 directories / 2 URIs x all 16 configurations (filesystem_checks x collection_size "
-        "{-1,1,2,4} x module_directory), every history of length L x 3 (quick, L=3) / 4 (thorough, L=4) rotating "
+        "over a 13-op alphabet on 2 directories / 2 URIs x all 16 configurations (filesystem_checks x collection_size "
+        "{-1,1,2,4} x module_directory), every history of length L (quick L=3, thorough L=4) x 3 rotating "
         "configurations; random: length 1..40, 1-3 directories, 1..8 URIs, every write a new content id, weights "
         "favouring get/write/tick, x the 16 configurations in turn; corpus: the witnesses of the Lean counterexample "
         "theorems.  A history is non-trivial when it contains a get/has after a disk change or put; distinct = distinct "
@@ -47,6 +47,8 @@ TRUSTED_EXTRA = [
 ]
 
 BASE = 1_000_000
+# contents that Mako compiles but whose generated module raises when imported / executed
+LATE = ["<% break %>late", "<%! import nonexistent_module_c14 %>late", "<%! raise RuntimeError('c14') %>late"]
 CONFIGS = [(ck, sz, md) for ck in (True, False) for sz in (-1, 1, 2, 4) for md in (False, True)]
 
 
@@ -82,8 +84,10 @@ def random_history(rng, ndirs, nuris, n):
             c += 1; h.append(("w", d, u, c))
         elif r < 0.64:
             h.append(("d", d, u))
-        elif r < 0.70:
+        elif r < 0.68:
             h.append(("b", d, u))
+        elif r < 0.72:
+            c += 1; h.append(("l", d, u, c))
         elif r < 0.86:
             h.append(("t", rng.choice([1, 1, 1, 2, 3, 0])))
         elif r < 0.94:
@@ -122,8 +126,10 @@ def lifecycle_history(rng, ndirs, nuris, n):
             h.append(("t", rng.choice([1, 1, 2, 5])))
         elif r < 0.83 and files:
             d, u = rng.choice(files); h.append(("d", d, u)); files.remove((d, u))
-        elif r < 0.89 and files:
+        elif r < 0.86 and files:
             d, u = rng.choice(files); h.append(("b", d, u))
+        elif r < 0.90 and files:
+            d, u = rng.choice(files); c += 1; h.append(("l", d, u, c))
         elif r < 0.95:
             c += 1; h.append(("s", rng.randrange(nuris), c)); made += 1
         elif made:
@@ -131,7 +137,7 @@ def lifecycle_history(rng, ndirs, nuris, n):
     return h
 
 
-ALPHABET = [("t", 1), ("w", 0, 0, None), ("w", 1, 0, None), ("d", 0, 0), ("b", 0, 0), ("g", 0), ("g", 1), ("h", 0),
+ALPHABET = [("t", 1), ("w", 0, 0, None), ("w", 1, 0, None), ("d", 0, 0), ("b", 0, 0), ("l", 0, 0, None), ("g", 0), ("g", 1), ("h", 0),
             ("w", 0, 1, None), ("s", 0, None), ("s", 1, None), ("p", 1, 0)]
 
 
@@ -158,6 +164,12 @@ CORPUS = [
     (1, True, -1, False, "w0.0.1;g0;t1;b0.0;g0;g0;w0.0.2;g0"),                # failed compile, corrected file loads
     (1, True, -1, False, "w0.0.1;g0;d0.0;h0;h0"),                             # has_template on a vanished file
     (1, True, 2, False, "w0.0.1;g0;s0.2;g0;s0.3;g0;p0.0;g0"),                 # stores onto an existing key (LRU)
+    (2, True, -1, True, "w1.0.3;t1;l0.0.4;g0;d0.0;g0;t100;g0"),               # first_directory_wins_counterexample
+    (1, True, -1, True, "l0.0.1;g0;w0.0.2;g0;t1;w0.0.3;g0"),                  # failed_import_same_second_witness
+    (1, True, -1, False, "l0.0.2;g0;w0.0.2;g0"),
+    (1, True, -1, True, "l0.0.0;g0;g0;t1;w0.0.2;g0;g0"),                      # late failure, tick, corrected file loads
+    (1, True, 2, True, "w0.0.1;g0;t1;l0.0.1;g0;h0;t1;w0.0.2;h0;g0"),          # cached, then late-breaking, then corrected
+    (1, False, -1, True, "l0.0.2;h0;t2;w0.0.5;g0"),
 ]
 
 
@@ -277,13 +289,14 @@ class Real:
                 k = op[0]
                 out = "-"
                 ret = None
+                exc = None
                 if k == "t":
                     Sim.clock += op[1]
-                elif k in "wb":
+                elif k in "wbl":
                     p = path(op[1], op[2])
                     if op[1] < ndirs:
                         with open(p, "w") as f:
-                            f.write("c%d" % op[3] if k == "w" else "${")
+                            f.write("c%d" % op[3] if k == "w" else "${" if k == "b" else LATE[op[3] % len(LATE)])
                         os.utime(p, (BASE + Sim.clock, BASE + Sim.clock))
                 elif k == "d":
                     try:
@@ -307,6 +320,9 @@ class Real:
                         out = "compile"
                     except OSError:
                         out = "oserr"
+                    except Exception as e:          # whatever the import / execution of the generated module raises
+                        out = "late"
+                        exc = type(e).__name__
                 elif k == "s":
                     lk.put_string("u%d.html" % op[1], "c%d" % op[2])
                 elif k == "p":
@@ -321,7 +337,7 @@ class Real:
                         v = v.value
                     cached[int(key[1:-5])] = v._c14_id
                 steps.append({"out": out, "keys": sorted(cached), "count": Sim.count, "cached": cached,
-                              "locked": lk._mutex.locked(), "ret": ret,
+                              "locked": lk._mutex.locked(), "ret": ret, "exc": exc,
                               "srcs": srcs})
         finally:
             pass
@@ -356,7 +372,7 @@ def real_view(steps):
 def nontrivial(h):
     seen = False
     for o in h:
-        if o[0] in "wdbsp":
+        if o[0] in "wdblsp":
             seen = True
         elif o[0] in "gh" and seen:
             return True
@@ -379,6 +395,23 @@ def content_of(out):
 def reference(ndirs, checks, size, moddir, history, steps):
     """Direct reading of the property on the observed run.  Yields (site, step index, detail)."""
     disk = {}                 # (d,u) -> (content or None if broken, mtime)
+    kind = {}                 # (d,u) -> "ok" | "compile" (does not compile) | "late" (module raises at import)
+    latemod = {}              # module_directory on: u -> (second in which a module file whose import raises was
+                              # written, the source file it was generated from)
+
+    def late_verdict(u, srcfile):
+        """an import error although `srcfile` compiles: 'grace' = the leftover module file was written in the very
+        second of the source's mtime (allowance); 'othersrc' = it was generated from another source file and is not
+        older than this one (recorded finding); 'bad' = anything else"""
+        if not (moddir and u in latemod and srcfile in disk):
+            return "bad"
+        t, lsrc = latemod[u]
+        if t == disk[srcfile][1]:
+            return "grace"
+        if lsrc != srcfile and t > disk[srcfile][1]:
+            return "othersrc"
+        return "bad"
+
     clock = 0
     put = {}                  # u -> id of the object put there and still expected
     last_get = {}             # u -> (step, id, count) of the last successful get while the disk was quiet
@@ -394,8 +427,9 @@ def reference(ndirs, checks, size, moddir, history, steps):
             yield ("lru-bound", i, "len(collection)=%d > 1.5*%d" % (len(st["keys"]), size))
         if k == "t":
             clock += op[1]
-        elif k in "wb" and op[1] < ndirs:
+        elif k in "wbl" and op[1] < ndirs:
             disk[(op[1], op[2])] = (str(op[3]) if k == "w" else None, clock)
+            kind[(op[1], op[2])] = {"w": "ok", "b": "compile", "l": "late"}[k]
             last_get.clear()
         elif k == "d":
             disk.pop((op[1], op[2]), None)
@@ -429,14 +463,26 @@ def reference(ndirs, checks, size, moddir, history, steps):
             # ---- uncached URI: first directory / TopLevelLookupException / compile error
             # (with a module directory the module file is a cached version too: a result stamped in the very second
             #  of the source's mtime is within the one-second allowance)
+            srcfile = first if cached_id is None else st["srcs"][cached_id][0]
+            # a module file whose import raises is a cached version too: while the source's mtime is the very second
+            # in which that module file was written, importing it again is within the one-second allowance
+            lv = late_verdict(u, first) if (out == "late" and first is not None) else "bad"
+            late_grace = lv == "grace"
             if cached_id is None:
                 in_grace = moddir and first is not None and st["ret"] is not None and st["ret"][2] == disk[first][1]
                 if first is None:
                     if out not in ("top", "has0"):
                         yield ("no-file-not-toplevel", i, "no file for the URI, got %s" % out)
                 elif disk[first][0] is None:
-                    if out != "compile" and not in_grace and not (moddir and k == "h" and out == "has1"):
-                        yield ("broken-file-no-compile-error", i, "got %s" % out)
+                    if out != kind[first] and not in_grace and not late_grace and \
+                            not (moddir and k == "h" and out == "has1"):
+                        yield ("broken-file-no-compile-error", i, "file is %s-broken, got %s" % (kind[first], out))
+                elif out == "late":
+                    if not late_grace:
+                        yield ("late-module-of-other-source-blocks-import" if lv == "othersrc"
+                               else "corrected-file-does-not-load", i,
+                               "file %r compiles (mtime %d), got the import error of a leftover module file (%s, module "
+                               "written at %r)" % (first, disk[first][1], st["exc"], latemod.get(u)))
                 elif k == "h":
                     if out != "has1":
                         yield ("first-directory", i, "has_template says %s" % out)
@@ -460,8 +506,20 @@ def reference(ndirs, checks, size, moddir, history, steps):
                         yield ("vanished-has-template-not-false", i, "has_template gave %s" % out)
                     if u in st["keys"]:
                         yield ("vanished-not-evicted", i, "entry still cached")
-            if out == "compile" and u in st["keys"]:
+            if cached_id is not None and checks and out == "late" and srcfile in disk and disk[srcfile][0] is not None \
+                    and late_verdict(u, srcfile) != "grace":
+                yield ("late-module-of-other-source-blocks-import" if late_verdict(u, srcfile) == "othersrc"
+                       else "corrected-file-does-not-load", i, "source %r compiles (mtime %d), got the import error of "
+                       "a leftover module file (%s, module written at %r)"
+                       % (srcfile, disk[srcfile][1], st["exc"], latemod.get(u)))
+            if out in ("compile", "late") and u in st["keys"]:
                 yield ("failed-compile-leaves-entry", i, "entry left in the collection")
+            if moddir:
+                if out == "late" and srcfile in disk and kind.get(srcfile) == "late" and \
+                        (u not in latemod or latemod[u][0] < disk[srcfile][1]):
+                    latemod[u] = (clock, srcfile)     # no such module file, or an older one: it was (re)generated now
+                elif out.startswith(("ok.", "has1")) and constructed:
+                    latemod.pop(u, None)
             # ---- every returned template: freshness (whole seconds)
             if k == "g" and out.startswith("ok."):
                 rid, rsrc, rstamp = st["ret"]
@@ -525,13 +583,15 @@ def cold(ndirs, history, upto, u):
         if op[0] == "w" and op[1] < ndirs:
             disk[(op[1], op[2])] = str(op[3])
         elif op[0] == "b" and op[1] < ndirs:
-            disk[(op[1], op[2])] = None
+            disk[(op[1], op[2])] = "compile"
+        elif op[0] == "l" and op[1] < ndirs:
+            disk[(op[1], op[2])] = "late"
         elif op[0] == "d":
             disk.pop((op[1], op[2]), None)
     first = next(((d, u) for d in range(ndirs) if (d, u) in disk), None)
     if first is None:
         return "fail", None
-    return ("compile" if disk[first] is None else disk[first]), first
+    return disk[first], first
 
 
 def settled(history):
@@ -542,7 +602,7 @@ def settled(history):
             fresh = True
         elif op[0] in "ghsp":
             fresh = False
-        elif op[0] in "wdb" and not fresh:
+        elif op[0] in "wdbl" and not fresh:
             return False
     return True
 
@@ -550,7 +610,7 @@ def settled(history):
 def homed(history):
     home = {}
     for op in history:
-        if op[0] in "wdb":
+        if op[0] in "wdbl":
             if home.setdefault(op[2], op[1]) != op[1]:
                 return False
     return True
@@ -658,7 +718,7 @@ def compare(ctx, stream, cases, real, reported, do_oracle=True):
                     small = shrink_disagreement(ctx, real, c) if st["disagreements"] < 3 else c
                     ctx.disagree(stream, _case(small), {"step": i, "model": mv[i:i + 1]}, {"step": i, "impl": rv[i:i + 1]})
                 for s in steps:
-                    ctx.branch("impl:" + s["out"].split(".")[0])
+                    ctx.branch("impl:" + s["out"].split(".")[0] + (":" + s["exc"] if s["exc"] else ""))
             if nontrivial(h):
                 ctx.nontriv((ndirs, checks, size, moddir, enc_hist(h)))
         except Exception as e:          # harness trouble on one case must not hide the oracle
@@ -721,10 +781,10 @@ def run(ctx):
                 if len(h) < L:
                     full.extend((2, ck, sz, md, h) for ck, sz, md in CONFIGS)
                 else:
-                    nc = 3 if ctx.quick else 4
+                    nc = 3
                     part.extend((2,) + CONFIGS[(i + j * 5) % 16] + (h,) for j in range(nc))
             ctx.log("corr.exhaustive: %d cases (length < %d, all configurations); corr.exhaustive_sampled: %d cases "
-                    "(length %d, %d configurations each)" % (len(full), L, len(part), L, 3 if ctx.quick else 4))
+                    "(length %d, %d configurations each)" % (len(full), L, len(part), L, 3))
             ctx.stream("corr.exhaustive", exhaustive=True)
             ctx.stream("corr.exhaustive_sampled", exhaustive=False)
             for off in range(0, len(full), 5000):
